@@ -2,7 +2,8 @@
 C42 — racing dials to a DC return one connection and close the rest.
 
 Property theorems only.  They are stated for the configuration `cfgOfSource` that is regenerated from
-`telegram/dcs/plain.go` on every run, for ANY number `n ≥ 2` of racing dialers and ANY action list
+`telegram/dcs/plain.go` on every run, for ANY number `n ≥ 1` of dialers (n = 1 is the single-address
+path, which dials directly: the same observable transitions) and ANY action list
 (completion orders, outcomes, late successes after the winner, caller cancellation at any point).
 -/
 import TdModel.Lemmas.C42b
@@ -21,11 +22,11 @@ theorem good_source : Good cfgOfSource := by unfold Good; decide
 
 /-- **At most one connection is returned**: two dialers whose successful result was taken by the
 collector are the same dialer, and it is exactly the one `connect` returned. -/
-theorem at_most_one_returned (n : Nat) (hn : 2 ≤ n) (s : State) (h : Reachable cfgOfSource n s)
+theorem at_most_one_returned (n : Nat) (hn : 1 ≤ n) (s : State) (h : Reachable cfgOfSource n s)
     (i j : Nat) (di dj : Dialer) (hi : s.ds[i]? = some di) (hj : s.ds[j]? = some dj)
     (h1 : di.phase = .delivered ∧ di.ok = true) (h2 : dj.phase = .delivered ∧ dj.ok = true) :
     i = j ∧ s.coll = .returned i := by
-  have hI := inv_reachable good_source (by omega : 1 ≤ n) h
+  have hI := inv_reachable good_source hn h
   have a := hI.win i di hi h1.1 h1.2
   have b := hI.win j dj hj h2.1 h2.2
   rw [a] at b
@@ -33,20 +34,20 @@ theorem at_most_one_returned (n : Nat) (hn : 2 ≤ n) (s : State) (h : Reachable
   exact ⟨rfl, a⟩
 
 /-- The returned connection is an established, still open connection of a dialer that delivered it. -/
-theorem returned_is_open (n : Nat) (hn : 2 ≤ n) (s : State) (h : Reachable cfgOfSource n s) (i : Nat)
+theorem returned_is_open (n : Nat) (hn : 1 ≤ n) (s : State) (h : Reachable cfgOfSource n s) (i : Nat)
     (hr : s.coll = .returned i) :
     ∃ d, s.ds[i]? = some d ∧ d.phase = .delivered ∧ d.ok = true ∧ d.conn = .opened := by
-  have hI := inv_reachable good_source (by omega : 1 ≤ n) h
+  have hI := inv_reachable good_source hn h
   obtain ⟨d, hd, hp, hok⟩ := hI.ret i hr
   exact ⟨d, hd, hp, hok, (hI.loc i d hd).2.2.1 hok (Or.inr hp)⟩
 
 /-- **An error is returned only when every dial failed**, and it combines all `n` failures:
 if `connect` returned the combined error, the error count is `n`, every dialer delivered a failure,
 and no connection is open. -/
-theorem error_only_if_all_failed (n : Nat) (hn : 2 ≤ n) (s : State) (h : Reachable cfgOfSource n s)
+theorem error_only_if_all_failed (n : Nat) (hn : 1 ≤ n) (s : State) (h : Reachable cfgOfSource n s)
     (e : Nat) (hf : s.coll = .failed e) :
     e = n ∧ ∀ (i : Nat) (d : Dialer), s.ds[i]? = some d → d.phase = .delivered ∧ d.ok = false ∧ d.conn ≠ .opened := by
-  have hI := inv_reachable good_source (by omega : 1 ≤ n) h
+  have hI := inv_reachable good_source hn h
   obtain ⟨he, hc⟩ := hI.cntF e hf
   refine ⟨he, ?_⟩
   have hall : ∀ a, a ∈ s.ds → isDelivered a = true :=
@@ -65,11 +66,11 @@ theorem error_only_if_all_failed (n : Nat) (hn : 2 ≤ n) (s : State) (h : Reach
 /-- **Error iff all failed** (no caller cancel): once nothing can happen any more, `connect` has
 returned either one connection or the combined error of all `n` dials, and it is the error exactly
 when no dial succeeded. -/
-theorem error_iff_all_failed (n : Nat) (hn : 2 ≤ n) (s : State) (h : Reachable cfgOfSource n s)
+theorem error_iff_all_failed (n : Nat) (hn : 1 ≤ n) (s : State) (h : Reachable cfgOfSource n s)
     (ht : Terminal cfgOfSource s) (hnc : s.callerDone = false) :
     ((∃ i, s.coll = .returned i) ∨ s.coll = .failed n) ∧
     (s.coll = .failed n ↔ ∀ (i : Nat) (d : Dialer), s.ds[i]? = some d → d.ok = false) := by
-  have hI := inv_reachable good_source (by omega : 1 ≤ n) h
+  have hI := inv_reachable good_source hn h
   have hcase : (∃ i, s.coll = .returned i) ∨ s.coll = .failed n := by
     cases hc : s.coll with
     | returned i => exact Or.inl ⟨i, rfl⟩
@@ -109,10 +110,10 @@ theorem error_iff_all_failed (n : Nat) (hn : 2 ≤ n) (s : State) (h : Reachable
 
 /-- **Every open connection is accounted for at every moment** (not only at the end): it is either
 still held by its blocked dialer — which will deliver or close it — or it is the returned one. -/
-theorem open_conn_accounted (n : Nat) (hn : 2 ≤ n) (s : State) (h : Reachable cfgOfSource n s)
+theorem open_conn_accounted (n : Nat) (hn : 1 ≤ n) (s : State) (h : Reachable cfgOfSource n s)
     (i : Nat) (d : Dialer) (hd : s.ds[i]? = some d) (ho : d.conn = .opened) :
     d.ok = true ∧ (d.phase = .blocked ∨ (d.phase = .delivered ∧ s.coll = .returned i)) := by
-  have hI := inv_reachable good_source (by omega : 1 ≤ n) h
+  have hI := inv_reachable good_source hn h
   have hl := hI.loc i d hd
   have hok : d.ok = true := by
     cases hk : d.ok with
@@ -129,10 +130,10 @@ theorem open_conn_accounted (n : Nat) (hn : 2 ≤ n) (s : State) (h : Reachable 
 (every dial has completed — including successes that arrive after the winner or after the caller
 cancelled — and every goroutine has taken its last step), every established connection that is
 still open is the one `connect` returned; in particular after an error or a cancel none is open. -/
-theorem terminal_all_closed (n : Nat) (hn : 2 ≤ n) (s : State) (h : Reachable cfgOfSource n s)
+theorem terminal_all_closed (n : Nat) (hn : 1 ≤ n) (s : State) (h : Reachable cfgOfSource n s)
     (ht : Terminal cfgOfSource s) (i : Nat) (d : Dialer) (hd : s.ds[i]? = some d)
     (ho : d.conn = .opened) : s.coll = .returned i := by
-  have hI := inv_reachable good_source (by omega : 1 ≤ n) h
+  have hI := inv_reachable good_source hn h
   obtain ⟨_, hb | ⟨_, hr⟩⟩ := open_conn_accounted n hn s h i d hd ho
   · exfalso
     cases hc : s.coll with
@@ -155,15 +156,15 @@ theorem terminal_all_closed (n : Nat) (hn : 2 ≤ n) (s : State) (h : Reachable 
 
 /-- A caller cancel never lets `connect` hand out a second connection or leave one open: the
 cancelled collector implies the caller cancelled, and then `terminal_all_closed` applies unchanged. -/
-theorem cancel_only_if_caller_cancelled (n : Nat) (hn : 2 ≤ n) (s : State) (h : Reachable cfgOfSource n s)
+theorem cancel_only_if_caller_cancelled (n : Nat) (hn : 1 ≤ n) (s : State) (h : Reachable cfgOfSource n s)
     (hc : s.coll = .cancelled) : s.callerDone = true :=
-  (inv_reachable good_source (by omega : 1 ≤ n) h).cc hc
+  (inv_reachable good_source hn h).cc hc
 
 /-- The executable monitor `holdsB` (evaluated by the driver on every replayed implementation trace)
 is implied by the invariant: it holds in every reachable state. -/
-theorem holdsB_reachable (n : Nat) (hn : 2 ≤ n) (s : State) (h : Reachable cfgOfSource n s) :
+theorem holdsB_reachable (n : Nat) (hn : 1 ≤ n) (s : State) (h : Reachable cfgOfSource n s) :
     holdsB s = true := by
-  have hI := inv_reachable good_source (by omega : 1 ≤ n) h
+  have hI := inv_reachable good_source hn h
   unfold holdsB
   simp only [Bool.and_eq_true, List.all_eq_true, List.mem_range]
   refine ⟨?_, ?_⟩
